@@ -104,6 +104,10 @@ def collect_sidecar(eq, mesh):
             r["penalty_mask"] = numpy.array(reg.penalty_mask)
         # contour bookkeeping needed by C05/C10/C11
         try:
+            # own end points of every contour (the region arrays hold the *neighbour's* points on
+            # a shared y-face after getRZBoundary)
+            r["contour_first"] = numpy.array([[c[0].R, c[0].Z] for c in reg.contours])
+            r["contour_last"] = numpy.array([[c[-1].R, c[-1].Z] for c in reg.contours])
             r["contour_startInd"] = [c.startInd for c in reg.contours]
             r["contour_endInd"] = [c.endInd for c in reg.contours]
             r["contour_len"] = [len(c) for c in reg.contours]
